@@ -793,3 +793,84 @@ def stage_ctxexec(batch, schedule):
     ans = impl_call(run)
     batch.add({"op": "ctxexec", "threads": [0, 1, 2], "schedule": schedule}, ans, {"schedule": schedule})
     return ans
+
+
+def stage_ctxops(batch, ops):
+    """primitive operations of the reference context in three real threads (0 = main, 1 and 2 long-lived workers) in an
+    arbitrary interleaving: enter / exit of `AbsoluteModelRef.inject(...)` managers and reads, against `Runtime.runOps`"""
+    import queue
+    import threading
+    from json_to_models.dynamic_typing import AbsoluteModelRef, ModelMeta
+
+    def run():
+        probe, other = ModelMeta({"a": int}, "9P"), ModelMeta({"b": int}, "9Q")
+        probe.name, other.name = "Probe", "Other"
+        stacks = {0: [], 1: [], 2: []}
+
+        def do(op):
+            if op[0] == "enter":
+                cm = AbsoluteModelRef.inject({(probe if k == "P" else other): v for k, v in op[2]})
+                cm.__enter__()
+                stacks[op[1]].append(cm)
+                return None
+            if op[0] == "exit":
+                if stacks[op[1]]:
+                    stacks[op[1]].pop().__exit__(None, None, None)
+                return None
+            _, text = AbsoluteModelRef(probe).to_typing_code({})
+            inner = text.strip("'")
+            return inner[:-len(probe.name) - 1] if inner.endswith("." + probe.name) else ""
+
+        inbox = {t: queue.Queue() for t in (1, 2)}
+        outbox = queue.Queue()
+
+        def worker(t):
+            while True:
+                op = inbox[t].get()
+                if op is None:
+                    return
+                try:
+                    outbox.put(("ok", do(op)))
+                except Exception as e:  # noqa
+                    outbox.put(("err", type(e).__name__))
+
+        ths = [threading.Thread(target=worker, args=(t,), daemon=True) for t in (1, 2)]
+        for th in ths:
+            th.start()
+        reads = []
+        try:
+            for op in ops:
+                if op[1] == 0:
+                    r = do(op)
+                else:
+                    inbox[op[1]].put(op)
+                    st, r = outbox.get(timeout=60)
+                    if st == "err":
+                        raise RuntimeError(r)
+                if op[0] == "read":
+                    reads.append(r)
+        finally:
+            for t in (1, 2):
+                inbox[t].put(None)
+            for t in (0,):
+                while stacks[t]:
+                    stacks[t].pop().__exit__(None, None, None)       # leave the main thread's context as it was
+        return reads
+
+    ans = impl_call(run)
+    batch.add({"op": "ctxops", "ops": ops}, ans, {"ops": ops})
+    return ans
+
+
+def gen_ctx_ops(rng):
+    ops = []
+    for _ in range(rng.randint(3, 14)):
+        t = rng.choice([0, 1, 1, 2])
+        r = rng.random()
+        if r < 0.35:
+            ops.append(["enter", t, rng.choice([[], [["P", rng.choice(["Root", "Outer", "A"])]], [["Q", "X"]], [["P", "B"], ["Q", "Y"]]])])
+        elif r < 0.55:
+            ops.append(["exit", t])
+        else:
+            ops.append(["read", t])
+    return ops + [["read", 0], ["read", 1], ["read", 2]]
